@@ -519,6 +519,203 @@ func runC03(c *core.Ctx) core.Meta {
 		})
 	}
 
+	// ---------------- R03.8 compare instructions: truth table over the ordering domain ----------------
+	st8 := c.Rule("R03.8", "every compare handler (v_cmp / v_cmpx / s_cmp, tied to its instruction name through decode table -> dispatch switch -> callee) sets its result bit exactly for the orderings of (S0, S1) that the name prescribes - decided by resolving the handler's comparisons of the two operand values under each of less / equal / greater / unordered (NaN) and asking whether the bit-setting block is reachable - and compares values of the signedness, width and kind (i / u / f) the name prescribes", 150)
+	cmpName := regexp.MustCompile(`^(v_cmpx?|s_cmp)_(f|lt|eq|le|gt|lg|ne|ge|o|u|nge|nlg|ngt|nle|neq|nlt|tru|t)_([iuf])(16|32|64)(_e32|_e64)?$`)
+	wantSet := map[string]string{"f": "", "lt": "L", "eq": "E", "le": "LE", "gt": "G", "lg": "LG", "ne": "LG", "ge": "EG", "o": "LEG", "u": "U",
+		"nge": "LU", "nlg": "EU", "ngt": "LEU", "nle": "GU", "neq": "LGU", "nlt": "EGU", "tru": "LEGU", "t": "LEGU"}
+	seen8 := map[string]bool{}
+	type cmpJob struct {
+		h handlerRef
+		m []string
+	}
+	var jobs []cmpJob
+	for _, h := range handlers {
+		for _, n := range h.insts {
+			if mm := cmpName.FindStringSubmatch(n); mm != nil {
+				key := h.alu.pkg + "." + h.name + "|" + mm[2] + mm[3] + mm[4]
+				if !seen8[key] {
+					seen8[key] = true
+					jobs = append(jobs, cmpJob{h, mm})
+				}
+			}
+		}
+	}
+	for _, job := range jobs {
+		h, m := job.h, job.m
+		fn := c.SSAFunc(h.alu.pkg, h.alu.typ+"."+h.name)
+		if fn == nil {
+			continue
+		}
+		opTok, kind, width := m[2], m[3], m[4]
+		// comparisons of the two operand values
+		side := func(v ssa.Value) string {
+			pv := prov.Of(v)
+			if !strings.Contains(pv, "ReadOperand(") {
+				return ""
+			}
+			has0, has1 := strings.Contains(pv, ".Src0"), strings.Contains(pv, ".Src1")
+			switch {
+			case has0 && !has1:
+				return "0"
+			case has1 && !has0:
+				return "1"
+			}
+			return ""
+		}
+		type cmpIf struct {
+			bo     *ssa.BinOp
+			mirror bool
+		}
+		cmps := map[*ssa.BinOp]cmpIf{}
+		var typeSample types.Type
+		for _, b := range fn.Blocks {
+			for _, in := range b.Instrs {
+				bo, ok := in.(*ssa.BinOp)
+				if !ok {
+					continue
+				}
+				switch bo.Op {
+				case token.LSS, token.LEQ, token.GTR, token.GEQ, token.EQL, token.NEQ:
+				default:
+					continue
+				}
+				sx, sy := side(bo.X), side(bo.Y)
+				if sx == "0" && sy == "1" {
+					cmps[bo] = cmpIf{bo, false}
+					typeSample = bo.X.Type()
+				} else if sx == "1" && sy == "0" {
+					cmps[bo] = cmpIf{bo, true}
+					typeSample = bo.X.Type()
+				}
+			}
+		}
+		// the block that sets the result bit
+		var setBlocks []*ssa.BasicBlock
+		for _, b := range fn.Blocks {
+			for _, in := range b.Instrs {
+				if bo, ok := in.(*ssa.BinOp); ok && bo.Op == token.OR {
+					for _, o := range []ssa.Value{bo.X, bo.Y} {
+						if sh, ok := core.StripConv(o).(*ssa.BinOp); ok && sh.Op == token.SHL {
+							if k, isC := core.ConstInt(core.StripConv(sh.X)); isC && k == 1 {
+								setBlocks = append(setBlocks, b)
+							}
+						}
+					}
+				}
+				if name, cc := stateMethod(in); name == "SetSCC" {
+					if k, isC := core.ConstInt(cc.Args[0]); isC && k == 1 {
+						setBlocks = append(setBlocks, b)
+					}
+				}
+			}
+		}
+		if len(cmps) == 0 || len(setBlocks) == 0 {
+			if opTok != "f" && opTok != "tru" && opTok != "t" {
+				st8.Sample("%s.%s (%s): comparison of the operand values or bit-setting block not recognised; not modelled", h.alu.typ, h.name, m[0])
+			}
+			continue
+		}
+		st8.Instances++
+		c.MarkAnalysed(fn)
+		holds := func(op token.Token, mirror bool, k byte) bool {
+			if mirror {
+				switch k {
+				case 'L':
+					k = 'G'
+				case 'G':
+					k = 'L'
+				}
+			}
+			switch op {
+			case token.LSS:
+				return k == 'L'
+			case token.LEQ:
+				return k == 'L' || k == 'E'
+			case token.GTR:
+				return k == 'G'
+			case token.GEQ:
+				return k == 'G' || k == 'E'
+			case token.EQL:
+				return k == 'E'
+			case token.NEQ:
+				return k != 'E'
+			}
+			return false
+		}
+		got := ""
+		domain := "LEG"
+		if kind == "f" {
+			domain = "LEGU"
+		}
+		for i := 0; i < len(domain); i++ {
+			k := domain[i]
+			reach := map[*ssa.BasicBlock]bool{}
+			var walk func(b *ssa.BasicBlock)
+			walk = func(b *ssa.BasicBlock) {
+				if reach[b] {
+					return
+				}
+				reach[b] = true
+				if iff, ok := b.Instrs[len(b.Instrs)-1].(*ssa.If); ok {
+					if bo, ok := iff.Cond.(*ssa.BinOp); ok {
+						if ci, ok := cmps[bo]; ok {
+							if holds(bo.Op, ci.mirror, k) {
+								walk(b.Succs[0])
+							} else {
+								walk(b.Succs[1])
+							}
+							return
+						}
+					}
+				}
+				for _, sc := range b.Succs {
+					walk(sc)
+				}
+			}
+			walk(fn.Blocks[0])
+			for _, sb := range setBlocks {
+				if reach[sb] {
+					got += string(k)
+					break
+				}
+			}
+		}
+		want := ""
+		for i := 0; i < len(domain); i++ {
+			if strings.ContainsRune(wantSet[opTok], rune(domain[i])) {
+				want += string(domain[i])
+			}
+		}
+		okT := got == want
+		st8.Ob(okT)
+		st8.Sample("%s.%s (%s): result set for orderings {%s}, prescribed {%s}", h.alu.typ, h.name, m[0], got, want)
+		if !okT {
+			c.ReportAt("R03.8", fn, fn.Pos(), "compare-table:"+opTok+"_"+kind+width, fmt.Sprintf("%s sets its result for the orderings {%s} of (S0,S1) (L less, E equal, G greater, U unordered/NaN); the instruction name %s prescribes {%s}", h.name, got, m[0], want))
+		}
+		// kind, signedness and width of the compared values
+		if bt, ok := typeSample.Underlying().(*types.Basic); ok {
+			st8.Instances++
+			var okK bool
+			switch kind {
+			case "f":
+				okK = (width == "32" && bt.Kind() == types.Float32) || (width == "64" && bt.Kind() == types.Float64) || width == "16"
+			case "i":
+				okK = bt.Info()&types.IsInteger != 0 && bt.Info()&types.IsUnsigned == 0 && (map[string]types.BasicKind{"16": types.Int16, "32": types.Int32, "64": types.Int64}[width] == bt.Kind())
+			case "u":
+				okK = bt.Info()&types.IsUnsigned != 0 && (map[string]types.BasicKind{"16": types.Uint16, "32": types.Uint32, "64": types.Uint64}[width] == bt.Kind())
+			}
+			if !okK && kind != "f" && (opTok == "eq" || opTok == "lg" || opTok == "ne") {
+				// equality of bit patterns does not depend on signedness; only the width must be the prescribed one
+				okK = bt.Info()&types.IsInteger != 0 && (map[string]bool{"16int16": true, "16uint16": true, "32int32": true, "32uint32": true, "64int64": true, "64uint64": true}[width+bt.Name()])
+			}
+			st8.Ob(okK)
+			if !okK {
+				c.ReportAt("R03.8", fn, fn.Pos(), "compare-type:"+kind+width, fmt.Sprintf("%s compares values of Go type %s; %s compares %s%s values (signedness / width / kind differ)", h.name, bt.Name(), m[0], kind, width))
+			}
+		}
+	}
+
 	// ---------------- R03.2 shift-amount masking ----------------
 	st2 := c.Rule("R03.2", "in handlers of shift instructions (tied to their names through decode table -> dispatch switch -> callee) every data-dependent shift amount is confined to [0, W-1] (W from the instruction name) by a mask or modulus before it reaches the Go shift, because Go saturates where the ISA uses the low 4/5/6 bits", 15)
 	seenH := map[string]bool{}
